@@ -1,4 +1,4 @@
-"""C03 -- radial transforms: three structural clauses (the analytic identities are declined).
+"""C03 -- radial transforms.
 
 R1 sibling agreement (E5): BaseTransform.deriv{,2,3}_inverse and InverseRTransform.deriv{,2,3}
    implement the same inverse-function-theorem formulas over (inverse, deriv, deriv2, deriv3) of
@@ -8,6 +8,12 @@ R3 trimming honoured: each class taking ``trim_inf`` stores the flag and routes 
    returned by ``transform`` through ``_convert_inf`` under a test of the flag; ``_convert_inf``
    handles scalar and array, +inf and -inf.
 R4 statelessness: no transform field is written after construction except the set-once scale.
+R5 derivative chain (E8): d/dx transform == deriv, d/dx deriv == deriv2, d/dx deriv2 == deriv3 as
+   algebraic normal forms, for all parameters at once.
+R6 inverse(transform(x)) == x on normal forms.
+R7 the generic inverse-derivative formulas equal the inverse-function-theorem formulas.
+R8 the finite reference end points are mapped to the ends of the declared codomain.
+(R5-R8 live in gridlint/identities.py.)
 """
 from __future__ import annotations
 
@@ -19,15 +25,21 @@ from gridlint.props.common import get_repo
 
 PROP = "C03"
 EXPLANATION = (
-    "Structural clauses only.  (R1) the two hand-written copies of the inverse-function-theorem "
-    "formulas are compared as normalised value graphs (global value numbering; equal graphs => "
-    "bit-identical results), (R2) definite assignment of _domain/_codomain on every constructor "
-    "path of the 12 transform classes, (R3) the trim_inf flag is stored and honoured by the forward "
-    "map and _convert_inf is two-sided, (R4) transforms are stateless apart from the set-once "
-    "scale.  NOT decided: inverse o forward = id, correctness of deriv/deriv2/deriv3 (e.g. the "
-    "HandyMod third derivative), monotonicity, end-point images - algebraic identities that need "
-    "computer algebra, a different technique family.")
-RULE = "3 sibling pairs; 12 classes x 2 fields; classes with trim_inf x obligations; writers of transform fields"
+    "Formula analysis on the source of rtransform.py; nothing is imported or executed.  (R5-R8) each "
+    "closed-form method of the 11 concrete transform classes is translated from its syntax tree "
+    "into an algebraic normal form - a quotient of polynomials in x, the parameters and generators "
+    "f**u / log f / exp t over irreducible bases - differentiated with the generator rules and "
+    "compared: a zero numerator of the difference proves the identity for all parameter values "
+    "(derivative chain, inverse o forward = id, inverse-function-theorem formulas, finite end-point "
+    "images).  A non-identity is reported only with an admissible rational witness point where the "
+    "two formulas differ (60-digit evaluation of the analysis's own expressions); anything else is "
+    "undecided (exit 2).  (R1) the two hand-written copies of the inverse-derivative formulas are "
+    "compared as normalised value graphs, (R2) definite assignment of _domain/_codomain on every "
+    "constructor path, (R3) the trim_inf flag is stored and honoured by the forward map and "
+    "_convert_inf is two-sided, (R4) transforms are stateless apart from the set-once scale.  NOT "
+    "decided: monotonicity; limits at infinite ends beyond 'the image is infinite'.")
+RULE = ("11 classes x (3 derivative identities + inverse identity + reference end points); 3 generic formulas; "
+        "3 sibling pairs; 12 classes x 2 fields; classes with trim_inf x obligations; writers of transform fields")
 
 PAIRS = (("deriv_inverse", "deriv"), ("deriv2_inverse", "deriv2"), ("deriv3_inverse", "deriv3"))
 
@@ -216,5 +228,8 @@ def run(tier="quick", root="/repo", evidence_dir=None, quiet=False):
     classes = rule_r2(rep, repo)
     rule_r3(rep, repo, classes)
     rule_r4(rep, repo, classes)
+    from gridlint import identities
+    rep.attempt(identities.rule_ift, rep, repo)
+    rep.attempt(identities.rule_identities, rep, repo, classes)
     rep.extra.update({"transform_classes": classes, "source_digest": repo.digest(["rtransform"])})
     return rep.finish(evidence_dir=evidence_dir, quiet=quiet)
